@@ -602,7 +602,7 @@ def build_crate(prog, cache, repo, timeout=900, target=None):
 FN_POOL = ["alpha", "beta", "r#loop", "r#type", "sort_x2", "sort_x10", "Upper", "z9", "gamma", "delta", "r#fn", "eps"]
 MOD_POOL = ["m", "inner", "r#mod", "grp", "x1", "x10", "Deep", "q", "r#match", "r#use"]
 NAMES = ["custom name", "x::y", "alpha", "<T>", "n.1", "ü", "a,b", "01"]
-STRV = ["a", "b c", "x::y", "ü", "1.5", "01", "A", "é~", "q%"]
+STRV = ["a", "b c", "x::y", "ü", "1.5", "01", "A", "é~", "q%", "north\neast", "north\nwest"]
 
 
 def F(raw, **kw):
